@@ -138,13 +138,19 @@ func outName(code int64) string {
 	return "some other error"
 }
 
-func sameErr(a, b error) (same bool) {
+// sameErr: is `got` the error the function returned? The very value — or, so that an implementation which adds
+// context around the function's error is not blamed, an error that has that value in its chain (errors.Is) and its
+// message in its text. (nil is never "the same" as a non-nil value, a typed nil included.)
+func sameErr(got, want error) (same bool) {
 	defer func() {
-		if recover() != nil { // uncomparable dynamic type
+		if recover() != nil { // uncomparable dynamic type, Error() of a foreign nil pointer
 			same = false
 		}
 	}()
-	return a == b //nolint:errorlint // identity is the point
+	if got == want { //nolint:errorlint // identity is the point
+		return true
+	}
+	return errors.Is(got, want) && strings.Contains(got.Error(), want.Error())
 }
 
 type forcing struct {
@@ -1703,8 +1709,8 @@ func floodScenario(r *hxlib.Run, prio int) *scenario {
 // microtasks of every variant that were submitted with an *explicit* max delay of 10..20 s wait. No shutdown, no
 // high-priority task, and no maximum delay expires (the waiters are admitted after ~3.5 s, far below 40 % of their
 // delay): nothing may start before a slot frees. Each of the four timers of get*PriorityClearance is exercised: the
-// wait-phase timers by the ordinary waiters, the enqueue-phase timer of one priority by the `flood` variant, in which
-// more requests than the clearance queue holds are submitted, so that the surplus sits in the enqueue select.
+// wait-phase timers by the ordinary waiters, the enqueue-phase timers by the `flood` variant, in which more requests
+// than the clearance queue holds are submitted to each priority, so that the surplus sits in the enqueue select.
 // The scenario takes 3.5 s of real time and runs in a child process next to the other scenarios.
 func longDelayScenario(r *hxlib.Run, flood bool) *scenario {
 	rng := r.Rng
@@ -1742,19 +1748,20 @@ func longDelayScenario(r *hxlib.Run, flood bool) *scenario {
 		sc.Subs = append(sc.Subs, []int{len(sc.Tasks) - 1})
 	}
 	if flood {
-		fp := rng.Intn(2)
-		var sub []int
-		for i := modules.VerifMicroTaskQueueCap() + 30 + rng.Intn(40); i > 0; i-- {
-			t := waiter(fp, 1) // Start*: every request waits in a goroutine of its own
-			t.RunUs = rng.Intn(30)
-			t.DelayMs = 14000 + rng.Intn(6001)
-			if len(sub) == 0 {
-				t.PreUs = 60000
+		for fp := 0; fp < 2; fp++ { // each priority has a queue and an enqueue-phase timer of its own
+			var sub []int
+			for i := modules.VerifMicroTaskQueueCap() + 30 + rng.Intn(40); i > 0; i-- {
+				t := waiter(fp, 1) // Start*: every request waits in a goroutine of its own
+				t.RunUs = rng.Intn(30)
+				t.DelayMs = 15000 + rng.Intn(5001)
+				if len(sub) == 0 {
+					t.PreUs = 60000
+				}
+				sc.Tasks = append(sc.Tasks, t)
+				sub = append(sub, len(sc.Tasks)-1)
 			}
-			sc.Tasks = append(sc.Tasks, t)
-			sub = append(sub, len(sc.Tasks)-1)
+			sc.Subs = append(sc.Subs, sub)
 		}
-		sc.Subs = append(sc.Subs, sub)
 	}
 	return sc
 }
@@ -2027,6 +2034,12 @@ func runInChild(sc *scenario) ([]string, error) {
 	var eb strings.Builder
 	cmd.Stderr = &eb
 	out, err := cmd.Output()
+	if err != nil && raceOnlyExit(err, eb.String(), string(out)) {
+		// thorough tier (-race build): the race detector reported a data race and made the child exit with its
+		// status 66 *after* the scenario had run to its end and the whole trace was written. C15 states nothing about
+		// data races; the trace is used like any other and the report is kept as a measured number (see notes).
+		err = nil
+	}
 	if err != nil {
 		msg := ""
 		for _, l := range strings.Split(eb.String(), "\n") {
@@ -2047,6 +2060,38 @@ func runInChild(sc *scenario) ([]string, error) {
 		return nil, errors.New("child produced no trace")
 	}
 	return lines, nil
+}
+
+// raceOnlyExit: did the child fail only because the race detector (thorough tier) set its exit status, with the
+// trace complete? The racing sites are recorded in the evidence (Extra).
+func raceOnlyExit(err error, stderr, stdout string) bool {
+	var ee *exec.ExitError
+	if !errors.As(err, &ee) || ee.ExitCode() != 66 || !strings.Contains(stderr, "WARNING: DATA RACE") || !strings.Contains(stdout, "\nTRACE end ") {
+		return false
+	}
+	// the two racing accesses: first frame after "… at 0x… by goroutine N:" of each report
+	var sites []string
+	ls := strings.Split(stderr, "\n")
+	for i, l := range ls {
+		if (strings.HasPrefix(l, "Read at ") || strings.HasPrefix(l, "Write at ") || strings.HasPrefix(l, "Previous read at ") ||
+			strings.HasPrefix(l, "Previous write at ") || strings.HasPrefix(l, "Atomic ") || strings.HasPrefix(l, "Previous atomic ")) && i+1 < len(ls) {
+			sites = append(sites, strings.Fields(l)[0]+":"+strings.TrimSpace(strings.TrimSuffix(strings.TrimSpace(ls[i+1]), "()")))
+		}
+	}
+	key := strings.Join(sites, " / ")
+	if len(key) > 400 {
+		key = key[:400]
+	}
+	extraMu.Lock()
+	extra["data_race_reports_in_child_processes(not_part_of_C15)"] = toInt(extra["data_race_reports_in_child_processes(not_part_of_C15)"]) + 1
+	m, _ := extra["data_race_sites"].(map[string]int)
+	if m == nil {
+		m = map[string]int{}
+		extra["data_race_sites"] = m
+	}
+	m[key]++
+	extraMu.Unlock()
+	return true
 }
 
 func childMain() {
@@ -2210,6 +2255,22 @@ func gen(r *hxlib.Run, emit func(hxlib.Case)) {
 		emitScn(floodScenario(r, 1))
 		return
 	}
+	if f := os.Getenv("HX_C15_SCN"); f != "" { // debugging aid: run the scenario of a file (the JSON of a `scn` line) 20 times
+		b, err := os.ReadFile(f)
+		var sc scenario
+		if err == nil {
+			err = json.Unmarshal(b, &sc)
+		}
+		if err != nil {
+			emit(hxlib.Case{Lines: []string{"boot-failed " + err.Error()}, Kind: "boot"})
+			return
+		}
+		for i := 0; i < 20; i++ {
+			c := sc
+			emitScn(&c)
+		}
+		return
+	}
 	if os.Getenv("HX_C15_ONLY") == "ld" { // debugging aid
 		startAsync(longDelayScenario(r, false))
 		startAsync(longDelayScenario(r, true))
@@ -2289,7 +2350,7 @@ func main() {
 	}
 	hxlib.Main(&hxlib.Harness{
 		Prop:     "C15",
-		Rule:     "a case is one scenario (limit 2..8 or below the minimum, 1..16 submitting goroutines, 1..120 microtasks of every priority and variant incl. nil module, run times 0..3ms, nil/error/panic outcomes, 1..4 done() calls sequential or concurrent, max delays never/default/1..3ms, forced delays at the verif yield points, shutdown in a child process (a third of its Run*/Start* functions watch the module context and return when the shutdown cancels it), queue flood; error outcomes draw their value from a dictionary of 12 (plain, context.Canceled, errors wrapping it once/twice/joined, context.DeadlineExceeded plain and wrapped, modules.ErrCleanExit, wrapped modules.ErrRestartNow, typed nil pointer, non-panic *modules.ModuleError, own type with an Is method claiming context.Canceled) and the caller of a blocking variant must get that very value; class long-delay-held (child processes running next to the rest, 3.5 s of real time each): all slots held for 3.35..3.6 s — longer than both default max delays — while 3..6 medium/low microtasks of every variant submitted with explicit max delays of 10..20 s wait (every other one additionally with queue capacity + 30..70 Start* requests of one priority, so that the surplus waits in the enqueue phase): nothing may start before a slot frees; module lifecycle scenarios in child processes with module management: class modstop = the limit used up by long microtasks (one of them possibly of the stopping module — a blocking call that returns a dictionary error when the stop cancels its context), then medium/low microtasks submitted by the stop function of a stopping module and/or from outside to a stopping or stopped-and-not-restarted module, restart, more traffic; class stoptmo = stop timeout 50..100 ms, microtasks of any priority/variant running before the stop or started by the stop function outlive it, 0..2 blocking Run* calls of any priority in flight when the stop begins return a dictionary error once their context is cancelled, optional restart while they are in flight, quiescence, a further stop of the idle module under a 3 s timeout, restart, optional shutdown) executed on the real scheduler; its hook trace is replayed through the Lean model (acceptor: global counter and each module's counter compared at every bracketed operation, every task and every module followed individually, the stop check's read of the module counter compared with the model) and the monitor checks limit / exactly-once / returned error / zero counters (at the end and at every mid-scenario quiescence) / settled scheduler / module stops and shutdown not held up on the harness's own observations; non-trivial = at least two tasks and at least one clearance granted (or expiries); distinct = different scenario or different interleaving (hash of the whole trace)",
+		Rule:     "a case is one scenario (limit 2..8 or below the minimum, 1..16 submitting goroutines, 1..120 microtasks of every priority and variant incl. nil module, run times 0..3ms, nil/error/panic outcomes, 1..4 done() calls sequential or concurrent, max delays never/default/1..3ms, forced delays at the verif yield points, shutdown in a child process (a third of its Run*/Start* functions watch the module context and return when the shutdown cancels it), queue flood; error outcomes draw their value from a dictionary of 12 (plain, context.Canceled, errors wrapping it once/twice/joined, context.DeadlineExceeded plain and wrapped, modules.ErrCleanExit, wrapped modules.ErrRestartNow, typed nil pointer, non-panic *modules.ModuleError, own type with an Is method claiming context.Canceled) and the caller of a blocking variant must get that very value (or an error that has it in its chain and its message in its text); class long-delay-held (child processes running next to the rest, 3.5 s of real time each): all slots held for 3.35..3.6 s — longer than both default max delays — while 3..6 medium/low microtasks of every variant submitted with explicit max delays of 10..20 s wait (every other one additionally with queue capacity + 30..70 Start* requests of each priority, so that the surplus waits in the enqueue phase): nothing may start before a slot frees; module lifecycle scenarios in child processes with module management: class modstop = the limit used up by long microtasks (one of them possibly of the stopping module — a blocking call that returns a dictionary error when the stop cancels its context), then medium/low microtasks submitted by the stop function of a stopping module and/or from outside to a stopping or stopped-and-not-restarted module, restart, more traffic; class stoptmo = stop timeout 50..100 ms, microtasks of any priority/variant running before the stop or started by the stop function outlive it, 0..2 blocking Run* calls of any priority in flight when the stop begins return a dictionary error once their context is cancelled, optional restart while they are in flight, quiescence, a further stop of the idle module under a 3 s timeout, restart, optional shutdown) executed on the real scheduler; its hook trace is replayed through the Lean model (acceptor: global counter and each module's counter compared at every bracketed operation, every task and every module followed individually, the stop check's read of the module counter compared with the model) and the monitor checks limit / exactly-once / returned error / zero counters (at the end and at every mid-scenario quiescence) / settled scheduler / module stops and shutdown not held up on the harness's own observations; non-trivial = at least two tasks and at least one clearance granted (or expiries); distinct = different scenario or different interleaving (hash of the whole trace)",
 		Generate: gen,
 		NewExec:  func(*hxlib.Run) hxlib.Exec { return execT{} },
 		Monitor:  monitor,
